@@ -16,6 +16,7 @@ import ThaiLintModel.C10.Drv
 import ThaiLintModel.C14.Drv
 import ThaiLintModel.C15.Drv
 import ThaiLintModel.C16.Drv
+import ThaiLintModel.C18.Drv
 open Lean
 
 def dispatch (j : Json) : Json :=
@@ -32,6 +33,7 @@ def dispatch (j : Json) : Json :=
   | "C14" => ThaiLintModel.C14.handle j
   | "C15" => ThaiLintModel.C15.handle j
   | "C16" => ThaiLintModel.C16.handle j
+  | "C18" => ThaiLintModel.C18.handle j
   | p => Json.mkObj [("error", s!"unknown prop {p}")]
 
 partial def loop (h : IO.FS.Stream) (out : IO.FS.Stream) : IO Unit := do
